@@ -296,7 +296,8 @@ class Dm1:
             self._dtc_dic_list.append( {'spn': dtc.spn, 'fmi': dtc.fmi, 'oc': dtc.oc } )
 
     def _notify_subscribers(self, sa, timestamp):
-        for callback in self._subscribers:
+        # iterate over a snapshot: a callback may unsubscribe itself
+        for callback in list(self._subscribers):
             callback(sa, self.lamp_status.copy(), self._dtc_dic_list.copy(), timestamp)
 
 
